@@ -41,7 +41,7 @@ func runC02(c *run.Ctx) {
 		"(iface+any, iface+reflect, reflect-capable structs with an AnyResolver installed); oracle: pairwise equality of canonical data and of sorted error paths, plus the call log " +
 		"(an object implementing Resolver must be served by it even when an AnyResolver exists; with an AnyResolver installed no object may be served by reflection). " +
 		"Hostile leaf values of the wrong kind are planted so that error behaviour is compared too. Non-trivial = nested document with >=2 features; distinct by (document, data variant)"
-	n := c.N(500, 20000)
+	n := c.N(1200, 20000)
 	c.MinNontriv = n / 10
 	for i := 0; i < n && !c.TooMany(); i++ {
 		r := c.Rand(i)
@@ -138,7 +138,7 @@ func runC02(c *run.Ctx) {
 func c02Farm(c *run.Ctx) {
 	ms := zoo.FarmModel()
 	sdl := ms.SDL(model.SDLOpts{})
-	n := c.N(250, 8000)
+	n := c.N(500, 8000)
 	for i := 0; i < n && !c.TooMany(); i++ {
 		r := c.Rand(2000000 + i)
 		g := gen.Graph(r, ms, gen.GraphOpts{PerType: 2 + i%2, TypedNil: 0})
@@ -218,7 +218,7 @@ var _ = model.Scalar
 // its answer must equal what the request answers, however the arguments are written (any order, literal / variable /
 // variable default, omitted = zero value or the declared default).
 func c02Methods(c *run.Ctx) {
-	n := c.N(400, 15000)
+	n := c.N(1000, 15000)
 	for i := 0; i < n && !c.TooMany(); i++ {
 		r := c.Rand(4000000 + i)
 		root, zr, err := zoo.NewRoot()
